@@ -5,4 +5,4 @@ From PV.gen Require Import Gen_velocity Gen_velocity_utils Gen_pathlines.
 Extraction Language OCaml.
 Extraction "model_velocity.ml" run_velocity run_gradient run_indices run_strain_increment
   run_is_inside run_ivp_func run_event run_timestamps
-  run_gen_is_inside run_gen_ivp run_gen_event run_gen_request run_gen_timestamps.
+  run_gen_wrap run_gen_is_inside run_gen_ivp run_gen_event run_gen_request run_gen_timestamps.
